@@ -792,3 +792,9 @@ package keeper
 //@ ensures [one-failure-does-not-stop-the-rest] result != nil && $SlashValidator.called ==> false
 //@ precall SlashValidator [who] $SlashValidator.providerAddr == k.GetProviderAddrFromConsumerAddr(ctx, consumerId, types.NewConsumerConsAddress(sdk.ConsAddress(v.Address.Bytes()))) && $SlashValidator.slashingParams == $GetInfractionParameters.ret0.DoubleSign
 //@ precall JailAndTombstoneValidator [who] $JailAndTombstoneValidator.providerAddr == $SlashValidator.providerAddr && $SlashValidator.ret == nil
+
+//@ func Keeper.BeginBlockRemoveConsumers
+//@ precall DeleteConsumerChain [fresh-cache] sameworld($DeleteConsumerChain.ctx, ctx)
+//@ loop 1 step [failed-removal-rolled-back] $DeleteConsumerChain.called && $DeleteConsumerChain.ret != nil ==> S == prev(S) && E == prev(E) && X == prev(X)
+//@ loop 1 step [removed-committed] $DeleteConsumerChain.called && $DeleteConsumerChain.ret == nil ==> sameworld($DeleteConsumerChain.ctx, ctx)
+//@ ensures [no-halt-on-failed-removal] result != nil ==> !$DeleteConsumerChain.called
